@@ -1,12 +1,13 @@
 (* Dispatcher for the correspondence check: a case is a list of numbers whose head selects the
    engine; the result is the list of numbers the implementation must print for the same case. *)
 From Coq Require Import List NArith.
-From HecsV Require Import Model.EntityBits Model.Atomic.
+From HecsV Require Import Model.EntityBits Model.Atomic Model.WorldRun.
 Import ListNotations.
 Open Scope N_scope.
 
 Definition run_case (c : list N) : list N :=
   match c with
+  | 1 :: args => run_world args
   | 19 :: args => run_bits args
   | 6 :: args => run_borrow args
   (* real-thread stress run: by c06_invariant/c06_quiescent every schedule ends with no ghost
